@@ -507,6 +507,7 @@ class BasicZoneProcessor: public ZoneProcessor {
       }
 
       mYearTiny = yearTiny;
+      mIsFilled = false; // cache is invalid until the fill below succeeds
       mNumTransitions = 0; // clear cache
 
       if (yearTiny + LocalDate::kEpochYear < mZoneInfo.startYear() - 1
